@@ -263,12 +263,35 @@ def is_table(e: ast.AST, aliases: Set[str], attr: str = "_known") -> bool:
     return (isinstance(e, ast.Attribute) and e.attr == attr) or (isinstance(e, ast.Name) and e.id in aliases)
 
 
+def _raised_class(prog: Program, fi: FuncInfo, e: Optional[ast.AST], depth: int = 0) -> str:
+    """The class of `raise <e>`: the expression itself, what a same-module exception factory returns
+    (`raise _no_conversion(a, b)` with `def _no_conversion(..): return ConversionNotFound(..)`), or the single value a
+    local was bound to (`error = ValueError(..); raise error`)."""
+    if e is None:
+        return "<reraise>"
+    if isinstance(e, ast.Call) and isinstance(e.func, ast.Name) and depth < 2:
+        mi = prog.modules[fi.module]
+        q = mi.functions.get(e.func.id)
+        if q is not None and q in prog.functions:
+            h = prog.functions[q]
+            rets = [r.value for r in ast.walk(h.node) if isinstance(r, ast.Return) and r.value is not None]
+            names = {_raised_class(prog, h, r, depth + 1) for r in rets}
+            if len(names) == 1:
+                return names.pop()
+    if isinstance(e, ast.Name) and depth < 2 and e.id not in fi.params():
+        vals = [n.value for n in Resolver._own_nodes(fi.node) if isinstance(n, ast.Assign) and len(n.targets) == 1
+                and isinstance(n.targets[0], ast.Name) and n.targets[0].id == e.id]
+        if len(vals) == 1 and isinstance(vals[0], ast.Call):
+            return _raised_class(prog, fi, vals[0], depth + 1)
+    return exc_name(e)
+
+
 def raise_sites(prog: Program, qual: str) -> List[RaiseSite]:
     fi = prog.functions[qual]
     out = []
     for n in Resolver._own_nodes(fi.node):
         if isinstance(n, ast.Raise):
-            out.append(RaiseSite(qual, n, exc_name(n.exc), "raise" if n.exc is not None else "reraise"))
+            out.append(RaiseSite(qual, n, _raised_class(prog, fi, n.exc), "raise" if n.exc is not None else "reraise"))
         elif isinstance(n, ast.Assert):
             out.append(RaiseSite(qual, n, "AssertionError", "assert"))
     return out
